@@ -40,7 +40,7 @@ SPEC = {
     "components_real": ["fakesnow/*", "sqlglot", "duckdb engine (in-memory)"],
     "components_stubbed": ["caller threads"],
     "assumptions": ["statement-level atomicity"],
-    "mandatory_probes": {"any": ["op_set_var", "op_unset_var", "op_select_var", "op_insert_vars", "op_select_varpred", "prefix_pair_live"]},
+    "mandatory_probes": {"any": ["op_set_var", "op_unset_var", "op_select_var", "op_insert_vars", "op_select_varpred", "prefix_pair_live", "bound_param_with_dollar"]},
 }
 
 HAZARDS = ["dollar_in_literal"]
@@ -60,7 +60,7 @@ def gen(rng: Any, prop: str, tier: str) -> dict[str, Any]:
         sid = rng.choice(sids)
         cur = rng.choice([0, 1])
         have = sorted(g.m.sessions[sid]["vars"])
-        kind = rng.choices(["set", "unset", "use", "use_where", "insert", "undef", "lookalike", "noise"], [10, 2, 10, 4, 4, 3, 2, 2])[0]
+        kind = rng.choices(["set", "unset", "use", "use_where", "insert", "undef", "lookalike", "noise", "bound"], [10, 2, 10, 4, 4, 3, 2, 2, 4])[0]
         if kind == "set" or not have:
             n = rng.choice(names)
             r = rng.random()
@@ -95,6 +95,18 @@ def gen(rng: Any, prop: str, tier: str) -> dict[str, Any]:
                     g.exec(sid, {"t": "select_var", "names": [n]}, cur=cur)
                 else:
                     g.exec(sid, {"t": "insert_vars", "ref": [None, None, "T1"], "vars": [n, n]}, cur=cur)
+        elif kind == "bound":
+            # a bound value is data, whatever it contains: it is never a variable reference
+            text = rng.choice(["pay $V1 now", "$V", "cost $5", "100% $VAR_1", "plain", "it's $MYVAR"])
+            if rng.random() < 0.6:
+                row = [g.fresh(), text]
+                st = {"t": "insert", "ref": [None, None, "T1"], "rows": [row], "label": "bound-param"}
+                g.m.apply(sid, st)
+                g.ops.append({"s": sid, "k": "exec", "cur": cur, "sql": "INSERT INTO T1 VALUES (%s, %s)", "params": row, "st": st})
+            else:
+                st = {"t": "select", "ref": [None, None, "T1"], "cols": ["A"], "where": ["cmp", "B", "=", ["lit", text]], "label": "bound-param"}
+                g.m.apply(sid, st)
+                g.ops.append({"s": sid, "k": "exec", "cur": cur, "sql": "SELECT A FROM T1 WHERE B = %s", "params": [text], "st": st})
         elif kind == "lookalike":
             if hazards["dollar_in_literal"]:
                 sql, rows = rng.choice([("SELECT 'cost $5'", [["cost $5"]]), ("SELECT $$dollar quoted$$", [["dollar quoted"]]), ("SELECT 'a$V1'", [["a$V1"]])])
@@ -124,5 +136,6 @@ def run(case: dict[str, Any]) -> dict[str, Any]:
 
     res = run_serial_case(case, Oracle("C15", CLAUSE_PROPS), sessions_every=False, check_vars=True, focus=focus, min_focus=3)
     res.setdefault("probes", {})["prefix_pair_live"] = hits[0]
+    res["probes"]["bound_param_with_dollar"] = sum(1 for o in case["ops"] if o.get("params") and any(isinstance(x, str) and "$" in x for x in o["params"]))
     res["nontrivial"] = res["nontrivial"] and hits[0] > 0
     return res
